@@ -2,6 +2,8 @@
   C20 — FIFO sharded cache is bounded and keeps entries for a guaranteed insertion count.
 -/
 import SV.Misc.FifoProofs
+import SV.Misc.FifoRingProofs
+import SV.Misc.FifoRingCacheProofs
 namespace SV.Props.C20
 open SV SV.Fifo
 
@@ -31,5 +33,33 @@ theorem hasOrAdd_inserts_iff_absent (c : Cache) (k v : Bytes) :
     r.2.1 = (c.get k).isSome ∧ r.2.2.1 = !(c.get k).isSome ∧ r.2.2.2 = (if r.2.2.1 then c.handlers.map (·, k, v) else []) :=
   SV.Fifo.hasOrAdd_flags c k v
 theorem put_invokes_each_handler_once (c : Cache) (k v : Bytes) : (c.put k v).2 = c.handlers.map (·, k, v) := put_notifies c k v
+
+/-! ### the ring buffer itself: `SV.Misc.FifoRing` / `FifoRingCache` transcribe concurrent-map's shard statement by statement
+    (slot array `mapKeys`, `idxAdd`, per-item `arrayIdx`, `appendKeyToList`, `Keys()` walking from `idxAdd+1`) and the cache
+    on top of it (`Clear` removing key by key through the hash); this is the model the driver executes.  It refines the
+    age-ordered model above, so every theorem of this file holds of the ring. -/
+
+/-- one shard: any operation sequence on the ring and on the age-ordered model stay related — same abstraction, same
+    SetIfAbsent flags, same Keys (same order), same lookups; the representation invariant holds throughout -/
+theorem ring_refines_age_model (m : Nat) (hm : 1 ≤ m) (ops : List Op) :
+    RingInv ((Ring.init m).run ops).1 ∧
+    ((Ring.init m).run ops).1.toShard = ((Shard.init m).run ops).1 ∧
+    ((Ring.init m).run ops).2 = ((Shard.init m).run ops).2 ∧
+    ((Ring.init m).run ops).1.keys = ((Shard.init m).run ops).1.keys ∧
+    (∀ k, ((Ring.init m).run ops).1.get k = alookup k ((Shard.init m).run ops).1.vals) := run_init m hm ops
+/-- the whole cache (any number of shards ≥ 1): same abstraction and the same outputs for every operation sequence over
+    Put / HasOrAdd / Get / Remove / Clear / Len / Keys / handler (un)registration -/
+theorem ring_cache_refines_age_model (size n : Nat) (hn : 1 ≤ n) (ops : List COp) :
+    RCacheInv size ((RCache.init size n).run ops).1 ∧
+    ((RCache.init size n).run ops).1.toCache = ((Cache.init size n).run ops).1 ∧
+    ((RCache.init size n).run ops).2 = ((Cache.init size n).run ops).2 := crun_init size n hn ops
+/-- hence, directly on the ring: never more than S entries, and the entry just inserted is resident -/
+theorem ring_never_more_than_size {size : Nat} (c : RCache) (h : RCacheInv size c) (hs : 2 * c.n ≤ size) : c.len ≤ size :=
+  rcache_bound c h hs
+theorem ring_just_inserted_resident {size : Nat} (c : RCache) (k v : Bytes) (h : RCacheInv size c) (hs : 2 * c.n ≤ size) :
+    (c.put k v).1.get k = some v := rcache_put_resident c k v h hs
+/-- `Clear` (key-by-key removal over whatever order `Keys()` delivers) leaves every slot blank and keeps `idxAdd` -/
+theorem ring_clear_state {size : Nat} (c : RCache) (h : RCacheInv size c) :
+    c.clear = ⟨c.n, c.shards.map (fun r => ⟨r.m, r.idxAdd, List.replicate r.m none, []⟩), c.handlers⟩ := clear_state c h
 
 end SV.Props.C20
